@@ -1442,10 +1442,10 @@ where
 
     /// A CONNACK is also processed when no CONNECT was sent on this connection. Nothing the
     /// previous connection left behind may then decide about it: the session held at this
-    /// point is the one the CONNACK's Session Present flag refers to, and the side that sent
-    /// the previous CONNECT is not remembered.
+    /// point is the one the CONNACK's Session Present flag refers to, and the endpoint that
+    /// receives a CONNACK is the client side of this connection, whichever side it was before.
     fn begin_connection_without_connect(&mut self) {
-        self.is_client = false;
+        self.is_client = true;
         self.new_session_at_connect = false;
         self.snapshot_session_before_connect();
     }
